@@ -34,7 +34,13 @@ ASSUMPTIONS = [
 ]
 
 FRESH = ["zz", "nosuch", "q", "A", "f_", "xss", "selff"]
-BADMETA = ["#foo", "#values", "#enterr", "#loop", "#Value"]
+DOCUMENTED_META = ["#enter", "#error", "#exit", "#receive", "#value", "#yield"]
+BADMETA = ["#foo", "#values", "#enterr", "#loop", "#Value"] + sorted(
+    {m[:k] for m in DOCUMENTED_META for k in range(2, len(m))}      # truncated documented names
+    | {"#" + m[2:] for m in DOCUMENTED_META}                         # beheaded
+    | {m + "s" for m in DOCUMENTED_META} | {m.upper() for m in DOCUMENTED_META}
+    | {"#endloop", "#return", "#exit_"}
+)
 
 EXTRA = '''
 import functools
